@@ -183,3 +183,41 @@ class Decr(_SetNp):
 
     def target(self, inp):
         return inp['numprocesses'] - inp['arg']
+
+
+@register('circus.watcher:Watcher.do_action')
+class DoAction(object):
+    """the real do_action (through its real @synchronized wrapper) on a stopped / active watcher; _reload's effects are
+    observed through the recording spawn_process and the fake kernel"""
+    def from_model(self, m):
+        return []
+
+    def enumerate(self):
+        for num in (0, 1, -1, 2):
+            for status in ('stopped', 'active'):
+                for workers in ([], [True]):
+                    yield {'num': num, 'status': status, 'numprocesses': 2, 'workers': workers if status == 'active' else []}
+
+    def run(self, inp):
+        W, w, k, log, procs, vsleep = build(inp)
+        w.prereload_fn = None
+        w.send_hup = False
+        w.call_hook = lambda *a, **kw: True
+        w._create_redirectors = lambda: None
+        before = dict(w.processes)
+        res, exc = run_with_clock(W, vsleep, lambda: w.do_action(inp['num']))
+        obs = {}
+        if exc is not None:
+            obs['raised'] = type(exc).__name__
+        obs['spawned'] = len(log['spawned'])
+        obs['signals'] = [list(s) for s in k.signals]
+        obs['status'] = w._status
+        obs['table_same'] = w.processes == before
+        return obs
+
+    def check(self, inp, obs):
+        bad = set()
+        if inp['status'] == 'stopped' and (obs['spawned'] or obs['signals'] or obs['status'] != 'stopped' or not obs['table_same']):
+            bad.add('post[stopped-stays-stopped]')
+            bad.add('raises[*][0]')
+        return bad
